@@ -17,8 +17,16 @@ is classified:
   anything else from
   inside dendropy    -> violation  C20:<schema>:<ExceptionType>@<innermost dendropy function>
 
+Returned trees must also obey the library's own rule that a taxon sits on at most one node of a tree
+(C20:<schema>:tree_taxon_on_two_nodes) and that node taxa belong to the tree's namespace.
+
+Route dimension: besides the default fresh namespace, routes are run reading into a pre-populated TaxonNamespace
+(the document's own labels plus extras, unrelated labels, or the namespace left by a first read of the valid document
+through the same route = shared-namespace second read); the oracle is the same.
+
 Sub-checks: valid (generated + corpus documents parse and deliver their content), prefix (EVERY prefix of corpus and
-generated documents), edit (1-2 local edits of valid documents), soup (token soups), deep (deeply nested Newick)."""
+generated documents), edit (1-2 local edits of valid documents), dup (one taxon symbol replaced by a respelling of
+another: same label, case variant, TRANSLATE token / taxon number), soup (token soups), deep (deeply nested Newick)."""
 import io
 import re
 import sys
@@ -37,17 +45,22 @@ CONFIG = {
              "interleaved and sequential matrices, comments, quoted labels; PHYLIP strict/relaxed x sequential/"
              "interleaved; FASTA) of <= 400 (quick) / <= 800 (thorough) characters; (edit) 1-2 edits (delete char, "
              "delete span, delete token, insert char, replace char, insert keyword, duplicate span) of such documents; "
+             "(dup) one taxon symbol replaced by another taxon's label, case variant, TRANSLATE token or number; "
              "(soup) token sequences over each format's alphabet; (deep) Newick nesting depths 10..6000; (valid) the "
              "unmodified documents, which must parse on every route and deliver the abstract content they were "
              "written from; (atheris, thorough tier only) a coverage-guided campaign over bytes -> (reader variant, "
              "text) seeded with valid documents, same oracle.  Each input is read through every applicable route under a step budget of 200000 + "
-             "3000*len(text) events.  Non-trivial = non-empty input that is not the unmodified valid document; "
+             "3000*len(text) events, with the default fresh taxon namespace and (all prefix cases of non-Newick "
+             "documents, every second Newick prefix, 3/4 of edits, half of soups) again reading into a pre-populated "
+             "namespace (own labels + extras / unrelated labels / namespace of a first read of the valid document).  Non-trivial = non-empty input that is not the unmodified valid document; "
              "distinct = (schema, reader kwargs, text).  Histogram = outcome x schema (x route for violations)."),
     "exhaustive": {"quick": True, "thorough": True},
     "exhaustive_note": {
         "quick": "every prefix of every corpus document and of the generated documents (<= 400 chars), every route",
         "thorough": "every prefix of every corpus document and of the generated documents (<= 800 chars), every route"},
     "assumptions": [
+        "readers are run with their default suppress_internal_node_taxa=True / suppress_leaf_node_taxa=False, under "
+        "which the library documents that a taxon may occur only once on a tree",
         "generated documents use only documented syntax; labels are never a single structural character, never purely "
         "numeric, never a NEXUS keyword",
         "the ValueErrors 'No trees in data source', 'No trees available at requested location in data source', "
@@ -62,8 +75,8 @@ CONFIG = {
 }
 
 TOTALS = {
-    "quick": {"prefix_docs": 96, "max_len": 400, "valid": 1200, "edit": 6400, "soup": 8000},
-    "thorough": {"prefix_docs": 320, "max_len": 800, "valid": 12000, "edit": 60000, "soup": 30000,
+    "quick": {"prefix_docs": 96, "max_len": 400, "valid": 1200, "edit": 4800, "dup": 1600, "soup": 8000},
+    "thorough": {"prefix_docs": 320, "max_len": 800, "valid": 12000, "edit": 50000, "dup": 15000, "soup": 30000,
                  "atheris_runs": 160000},
 }
 
@@ -89,22 +102,44 @@ def routes_for(schema):
     return ("DataSet.get", "Matrix.get")
 
 
-def call_route(route, text, schema, kwargs, matrix_type):
+def call_route(route, text, schema, kwargs, matrix_type, tns=None):
+    """tns: a (pre-populated) TaxonNamespace to read into, or None for the route's default fresh one."""
     import dendropy
+    extra = {} if tns is None else {"taxon_namespace": tns}
     if route == "Tree.get":
-        return dendropy.Tree.get(data=text, schema=schema)
+        return dendropy.Tree.get(data=text, schema=schema, **extra)
     if route == "TreeList.get":
-        return dendropy.TreeList.get(data=text, schema=schema)
+        return dendropy.TreeList.get(data=text, schema=schema, **extra)
     if route == "yield":
-        return list(dendropy.Tree.yield_from_files(files=[io.StringIO(text)], schema=schema))
+        return list(dendropy.Tree.yield_from_files(files=[io.StringIO(text)], schema=schema, **extra))
     if route == "DataSet.get":
-        return dendropy.DataSet.get(data=text, schema=schema, **kwargs)
+        return dendropy.DataSet.get(data=text, schema=schema, **dict(kwargs, **extra))
     if route == "Matrix.get":
         cls = getattr(dendropy, MATRIX_CLASS[matrix_type or "dna"])
-        kw = dict(kwargs)
+        kw = dict(kwargs, **extra)
         kw.pop("data_type", None)
         return cls.get(data=text, schema=schema, **kw)
     raise runner.HarnessError("unknown route %s" % route)
+
+
+UNRELATED_LABELS = ["zz%02d" % i for i in range(12)]
+
+
+def make_namespace(ns, route, schema, kwargs, matrix_type):
+    """The pre-populated namespace a route reads into, from the plain-data description `ns`:
+      {"mode": "labels", "labels": [...]}   a namespace holding these labels (the document's own and/or unrelated ones)
+      {"mode": "reread", "text": valid}     the namespace left behind by a first read of the valid document through
+                                            the same route (shared-namespace second read)
+    Returns None when it cannot be built (first read refused)."""
+    import dendropy
+    if ns["mode"] == "labels":
+        return dendropy.TaxonNamespace(ns["labels"])
+    tns = dendropy.TaxonNamespace()
+    try:
+        call_route(route, ns["text"], schema, kwargs, matrix_type, tns)
+    except Exception:
+        return None
+    return tns
 
 
 def step_limit(text):
@@ -223,6 +258,25 @@ def tree_problems(tree):
     return rt, problems
 
 
+def taxon_problems(tree, rt):
+    """The library's own rule: a taxon occurs at most once on a tree (NewickReaderDuplicateTaxonError: 'Multiple
+    occurrences of the same taxa on trees are not supported'; the readers are run with their default
+    suppress_*_node_taxa settings) and every node taxon is a member of the tree's namespace."""
+    problems = []
+    seen = {}
+    members = set(id(t) for t in tree.taxon_namespace._taxa)
+    for nd in rt.obj:
+        t = getattr(nd, "taxon", None)
+        if t is None:
+            continue
+        if id(t) in seen and not any(k == "taxon_on_two_nodes" for k, _ in problems):
+            problems.append(("taxon_on_two_nodes", "taxon %r sits on two nodes" % (t.label,)))
+        seen[id(t)] = nd
+        if id(t) not in members and not any(k == "taxon_outside_namespace" for k, _ in problems):
+            problems.append(("taxon_outside_namespace", "node taxon %r is not in the tree's taxon namespace" % (t.label,)))
+    return problems
+
+
 def matrix_rows(m):
     """[(label, [cells])] through the raw containers"""
     out = []
@@ -302,18 +356,22 @@ def recursing_function(exc):
     return max(sorted(counts), key=counts.get) if counts else None
 
 
-def run_route(ctx, route, text, schema, kwargs, matrix_type, dims, valid=False):
+def run_route(ctx, route, text, schema, kwargs, matrix_type, dims, valid=False, tns=None):
     """Returns (outcome, result or None).  Violations go through ctx.fail with a root-cause key."""
+    if tns is not None:
+        route_name = route + "[into a namespace of %d taxa]" % len(tns)
+    else:
+        route_name = route
     from dendropy.utility.error import DataParseError
     clause = "reader_outcome"
     limit = step_limit(text)
     try:
-        res, events = budget.run(lambda: call_route(route, text, schema, kwargs, matrix_type), limit)
+        res, events = budget.run(lambda: call_route(route, text, schema, kwargs, matrix_type, tns), limit)
     except budget.HangDetected as e:
         where = reader_frame(e) or e.hot
         ctx.cls("%s:hang" % schema)
         ctx.fail("terminates", "C20:%s:hang@%s" % (schema, where),
-                 "route %s did not finish within %d events (in %s) on %r" % (route, limit, where, text[:300]))
+                 "route %s did not finish within %d events (in %s) on %r" % (route_name, limit, where, text[:300]))
         return "hang", None
     except DataParseError:
         return "parse_error", None
@@ -324,7 +382,7 @@ def run_route(ctx, route, text, schema, kwargs, matrix_type, dims, valid=False):
         ctx.cls("%s:RecursionError" % schema)
         ctx.fail(clause, "C20:%s:RecursionError@%s" % (schema, where),
                  "route %s: RecursionError (recursing in %s) on text of %d chars starting %r" % (
-                     route, where, len(text), text[:60]))
+                     route_name, where, len(text), text[:60]))
         return "internal_error", None
     except Exception as e:
         best, last = runner.innermost_dendropy_frame(e)
@@ -338,7 +396,7 @@ def run_route(ctx, route, text, schema, kwargs, matrix_type, dims, valid=False):
                 return "other_data_type", None
         ctx.cls("%s:%s" % (schema, type(e).__name__))
         ctx.fail(clause, "C20:%s:%s@%s" % (schema, type(e).__name__, best[0]),
-                 "route %s raised %s: %s (at %s:%s) on %r" % (route, type(e).__name__, str(e)[:200], best[1], best[2],
+                 "route %s raised %s: %s (at %s:%s) on %r" % (route_name, type(e).__name__, str(e)[:200], best[1], best[2],
                                                               text[:300]))
         return "internal_error", None
     if valid:
@@ -353,13 +411,18 @@ def run_route(ctx, route, text, schema, kwargs, matrix_type, dims, valid=False):
         if problems:
             ctx.cls("%s:malformed_tree" % schema)
             ctx.fail("returned_tree_wellformed", "C20:%s:malformed_tree" % schema,
-                     "route %s returned tree %d with %s on %r" % (route, k, problems[:3], text[:300]))
+                     "route %s returned tree %d with %s on %r" % (route_name, k, problems[:3], text[:300]))
+        else:
+            for kind, msg in taxon_problems(tree, rt):
+                ctx.cls("%s:tree_%s" % (schema, kind))
+                ctx.fail("returned_tree_wellformed", "C20:%s:tree_%s" % (schema, kind),
+                         "route %s returned tree %d in which %s on %r" % (route_name, k, msg, text[:300]))
     use_dims = dims if len(mats) == 1 else None
     for k, m in enumerate(mats):
         for kind, msg in matrix_problems(m, use_dims):
             ctx.cls("%s:matrix_%s" % (schema, kind))
             ctx.fail("returned_matrix_dimensions", "C20:%s:matrix_%s" % (schema, kind),
-                     "route %s, matrix %d: %s on %r" % (route, k, msg, text[:300]))
+                     "route %s, matrix %d: %s on %r" % (route_name, k, msg, text[:300]))
     return "returns", res
 
 
@@ -384,7 +447,9 @@ def unbalanced_newick_statement(text):
     return None
 
 
-def run_text(ctx, text, schema, kwargs, matrix_type):
+def run_text(ctx, text, schema, kwargs, matrix_type, ns=None):
+    """ns: optional description (see make_namespace) of a pre-populated taxon namespace; every route is then run a
+    second time reading into it (a fresh copy per route)."""
     dims = declared_dims(text, schema)
     if dims is not None:
         ctx.cls("%s:dims_declared" % schema)
@@ -399,6 +464,13 @@ def run_text(ctx, text, schema, kwargs, matrix_type):
             ctx.fail("bad_data_reported", "C20:newick:unbalanced_accepted",
                      "route %s accepted (%s) a text whose statement %r has unbalanced parentheses: %r" % (
                          route, outcome, bad_stmt[:80], text[:300]))
+        if ns is not None:
+            tns = make_namespace(ns, route, schema, kwargs, matrix_type)
+            if tns is None:
+                ctx.cls("ns:%s:not_built" % ns["mode"])
+                continue
+            outcome, _ = run_route(ctx, route, text, schema, kwargs, matrix_type, dims, tns=tns)
+            ctx.cls("ns:%s:%s:%s" % (ns["mode"], schema, outcome))
 
 
 # ---------------------------------------------------------------------------
@@ -536,10 +608,24 @@ def canon(schema, kwargs, text):
     return [schema, sorted(kwargs.items()), text]
 
 
+def ns_for(doc, mode):
+    """Namespace description for a corruption of `doc` (slim form, optional "labels"): mode None|"own"|"unrelated"|"reread"."""
+    if mode is None:
+        return None
+    if mode == "reread":
+        return {"mode": "reread", "text": doc["text"]}
+    if mode == "own" and doc.get("labels"):
+        return {"mode": "labels", "labels": list(doc["labels"]) + UNRELATED_LABELS[:3]}
+    return {"mode": "labels", "labels": UNRELATED_LABELS}
+
+
+NS_MODES = ("reread", "own", "unrelated")
+
+
 def sub_prefix(ctx, case):
     """case: {"text": prefix, "schema", "kwargs", "matrix_type", "full": bool}"""
     text = case["text"]
-    run_text(ctx, text, case["schema"], case["kwargs"], case.get("matrix_type"))
+    run_text(ctx, text, case["schema"], case["kwargs"], case.get("matrix_type"), case.get("ns"))
     if text and not case.get("full"):
         ctx.nontrivial(canon(case["schema"], case["kwargs"], text))
 
@@ -550,7 +636,7 @@ def sub_edit(ctx, case):
     text = docs.apply_edits(d["text"], case["edits"], d["schema"])
     for e in case["edits"]:
         ctx.cls("edit_op:%s" % e["op"])
-    run_text(ctx, text, d["schema"], d["kwargs"], d.get("matrix_type"))
+    run_text(ctx, text, d["schema"], d["kwargs"], d.get("matrix_type"), ns_for(d, case.get("ns_mode")))
     if text and text != d["text"]:
         ctx.nontrivial(canon(d["schema"], d["kwargs"], text))
         ctx.sample("edit:%s" % d["schema"], {"text": text})
@@ -558,10 +644,60 @@ def sub_edit(ctx, case):
 
 def sub_soup(ctx, case):
     """case: {"text", "schema", "kwargs", "matrix_type"}"""
-    run_text(ctx, case["text"], case["schema"], case["kwargs"], case.get("matrix_type"))
+    run_text(ctx, case["text"], case["schema"], case["kwargs"], case.get("matrix_type"), case.get("ns"))
     if case["text"]:
         ctx.nontrivial(canon(case["schema"], case["kwargs"], case["text"]))
         ctx.sample("soup:%s" % case["schema"], {"text": case["text"]})
+
+
+_WORD = re.compile(r"[A-Za-z0-9_.]+")
+DUP_VARIANTS = ("same", "swapcase", "upper", "lower", "number", "same", "swapcase")
+
+
+def dup_text(case):
+    """One taxon symbol of a valid Newick/NEXUS document replaced by (a respelling of) another one, so that a tree may
+    name one taxon twice: identical label, case variant (namespaces are case-insensitive by default), TRANSLATE token
+    or taxon number next to the label.  Candidate words are the plain taxon labels (either spelling of blanks) and
+    short numbers (TRANSLATE tokens / taxon numbers)."""
+    d = case["doc"]
+    text = d["text"]
+    labels = d.get("labels") or []
+    known = set()
+    for l in labels:
+        known.add(l.lower())
+        known.add(l.replace(" ", "_").lower())
+    words = [m for m in _WORD.finditer(text) if m.group(0).lower() in known or
+             (m.group(0).isdigit() and len(m.group(0)) <= 2)]
+    if len(words) < 2:
+        return text
+    src = words[case["src"] % len(words)]
+    dst = words[case["dst"] % len(words)]
+    w = src.group(0)
+    v = case["variant"]
+    if v == "swapcase":
+        w = w.swapcase()
+    elif v == "upper":
+        w = w.upper()
+    elif v == "lower":
+        w = w.lower()
+    elif v == "number":
+        low = [l.lower() for l in labels]
+        key = w.lower().replace("_", " ")
+        if key in low:
+            w = str(low.index(key) + 1)
+    return text[:dst.start()] + w + text[dst.end():]
+
+
+def sub_dup(ctx, case):
+    """case: {"doc": slim document with "labels", "src": int, "dst": int, "variant": one of DUP_VARIANTS,
+    "ns_mode": None|"own"|"unrelated"|"reread"}"""
+    d = case["doc"]
+    text = dup_text(case)
+    ctx.cls("dup:%s:%s" % (d["schema"], case["variant"]))
+    run_text(ctx, text, d["schema"], d["kwargs"], d.get("matrix_type"), ns_for(d, case.get("ns_mode")))
+    if text != d["text"]:
+        ctx.nontrivial(canon(d["schema"], d["kwargs"], text))
+        ctx.sample("dup:%s" % d["schema"], {"text": text})
 
 
 def deep_text(case):
@@ -590,7 +726,8 @@ def sub_deep(ctx, case):
     ctx.nontrivial(["deep", case])
 
 
-SUBCHECKS = {"valid": sub_valid, "prefix": sub_prefix, "edit": sub_edit, "soup": sub_soup, "deep": sub_deep}
+SUBCHECKS = {"valid": sub_valid, "prefix": sub_prefix, "edit": sub_edit, "dup": sub_dup, "soup": sub_soup,
+             "deep": sub_deep}
 
 
 # ---------------------------------------------------------------------------
@@ -598,7 +735,10 @@ SUBCHECKS = {"valid": sub_valid, "prefix": sub_prefix, "edit": sub_edit, "soup":
 # ---------------------------------------------------------------------------
 
 def slim(doc):
-    return {"text": doc["text"], "schema": doc["schema"], "kwargs": doc["kwargs"], "matrix_type": doc.get("matrix_type")}
+    out = {"text": doc["text"], "schema": doc["schema"], "kwargs": doc["kwargs"], "matrix_type": doc.get("matrix_type")}
+    if doc.get("content"):
+        out["labels"] = doc["content"]["taxon_labels"]
+    return out
 
 
 def draw_documents(strategy, n, seed):
@@ -625,10 +765,15 @@ def run_prefixes(ctx, documents, name="prefix"):
     stop = False
     for doc in documents:
         text = doc["text"]
+        sdoc = slim(doc)
         for cut in range(len(text) + 1):
             if ctx.out_of_time():
                 continue
             case = dict(slim(doc), text=text[:cut], full=(cut == len(text)))
+            case.pop("labels", None)
+            if doc["schema"] != "newick" or cut % 2 == 0:
+                # every route again, reading into a pre-populated namespace (mode cycles with the cut point)
+                case["ns"] = ns_for(sdoc, NS_MODES[cut % 3])
             n += 1
             ctx.evaluations += 1
             try:
@@ -647,6 +792,10 @@ def run_prefixes(ctx, documents, name="prefix"):
         len(documents)
 
 
+NS_SOUP = st.sampled_from([None, None, {"mode": "labels", "labels": UNRELATED_LABELS},
+                           {"mode": "labels", "labels": ["a", "b", "c", "A", "B", "t1", "1", "2"]}])
+
+
 def soup_cases():
     def one(schema):
         if schema == "phylip":
@@ -656,10 +805,12 @@ def soup_cases():
             kw = st.fixed_dictionaries({"data_type": st.sampled_from(["dna", "protein"])})
         else:
             kw = st.just({})
-        return st.fixed_dictionaries({"text": docs.soups(schema), "schema": st.just(schema), "kwargs": kw}).map(
+        return st.fixed_dictionaries({"text": docs.soups(schema), "schema": st.just(schema), "kwargs": kw,
+                                      "ns": NS_SOUP}).map(
             lambda c: dict(c, matrix_type=c["kwargs"].get("data_type", "dna" if c["schema"] == "nexus" else None)))
     stmt = st.fixed_dictionaries({"text": docs.nexus_statement_soups(), "schema": st.just("nexus"),
-                                  "kwargs": st.just({}), "matrix_type": st.sampled_from(["dna", "standard"])})
+                                  "kwargs": st.just({}), "matrix_type": st.sampled_from(["dna", "standard"]),
+                                  "ns": NS_SOUP})
     plain = st.fixed_dictionaries({"text": docs.plain_newick_soups(), "schema": st.just("newick"),
                                    "kwargs": st.just({}), "matrix_type": st.none()})
     plain2 = st.fixed_dictionaries({"text": docs.plain_newick_mutants(), "schema": st.just("newick"),
@@ -793,8 +944,16 @@ def run(ctx):
     run_prefixes(ctx, mine + generated)
 
     # (2) 1-2 edits of valid documents
-    edit_cases = st.fixed_dictionaries({"doc": valid_docs.map(slim), "edits": docs.edits(2)})
+    edit_cases = st.fixed_dictionaries({"doc": valid_docs.map(slim), "edits": docs.edits(2),
+                                        "ns_mode": st.sampled_from((None,) + NS_MODES)})
     runner.run_given(ctx, "edit", edit_cases, sub_edit, per(tot["edit"]))
+
+    # (2b) one taxon named twice (same label, case variant, TRANSLATE token / number next to the label)
+    tree_docs = docs.documents(max_len=max_len, schemas=("newick", "nexus"), large=large).map(slim)
+    dup_cases = st.fixed_dictionaries({"doc": tree_docs, "src": st.integers(0, 200), "dst": st.integers(0, 200),
+                                       "variant": st.sampled_from(DUP_VARIANTS),
+                                       "ns_mode": st.sampled_from((None, None) + NS_MODES)})
+    runner.run_given(ctx, "dup", dup_cases, sub_dup, per(tot["dup"]))
 
     # (3) token soup
     runner.run_given(ctx, "soup", soup_cases(), sub_soup, per(tot["soup"]))
